@@ -276,6 +276,9 @@ def run_case(case: Dict[str, Any]) -> core.Res:
     else:
         r = core.rng(case['seed'], 'C14', case['k'])
         lines = ['from typing import overload', 'import typing']
+        # defaults that are equal as values and different as expressions, side by side in one signature
+        lines += ['def eqdef_a(count=0, strict=False): pass', 'def eqdef_b(factor=1.0, steps=1, *, enabled=True): pass', "def eqdef_c(a=0, b=0.0, c=False, d=-0, e=0j, f='', g=b''): pass",
+                  'def eqdef_d(x=1, y=True, z=1.0, /, w=(1,), v=(True,), u=[1.0]): pass', 'class EqDef:\n    def m(self, a=None, b=False, c=0, *, d=True, e=1): pass']
         n = 0
         sample = ''
         while n < case['n']:
